@@ -52,6 +52,20 @@ impl Storage {
             return Ok(installation.clone());
         }
 
+        // The name becomes a directory below base_path: it must not be absolute and must
+        // not climb out of it ("..", drive prefixes).
+        let escapes = std::path::Path::new(name).components().any(|c| {
+            !matches!(
+                c,
+                std::path::Component::Normal(_) | std::path::Component::CurDir
+            )
+        });
+        if escapes || name.contains('\0') {
+            return Err(crate::StorageError::Installation(format!(
+                "invalid installation name {name:?}: must be a relative path inside the storage directory"
+            )));
+        }
+
         let installation_path = self.base_path.join(name);
         let installation = Arc::new(Installation::open(installation_path)?);
 
